@@ -55,6 +55,7 @@ class VFS:
 
     def __init__(self, entries):
         self.e = dict(entries)
+        self.links = dict(LINKS)   # directory -> target it is a symbolic link to
 
     def listdir(self, p):
         p = str(p).rstrip("/")
@@ -68,6 +69,7 @@ class VFS:
         return names
 
 
+LINKS = {}
 LISTDIR_ORDER = ["descending"]   # "ascending" | "descending" | "rotated": the order in which the stubbed OS enumerates a directory
 
 
@@ -96,6 +98,12 @@ class VPath(pathlib.PurePosixPath):
         return v
 
     def resolve(self):
+        """symbolic links of the VFS (a table directory -> target) are followed for the longest matching prefix"""
+        links = getattr(_FS[0], "links", None) or {}
+        me = str(self)
+        for src in sorted(links, key=len, reverse=True):
+            if me == src or me.startswith(src + "/"):
+                return type(self)(links[src] + me[len(src):])
         return self
 
     def absolute(self):
